@@ -488,7 +488,7 @@ def m2(ctx, h, cfg, wait, limit=None):
 
 
 INVISIBLE = {"mp2", "mp4", "st2", "cs2", "c1", "c3", "c4", "c8", "c8a", "ap2", "p1", "p1h", "p4", "p5h", "p9",
-             "p11", "ctl", "Fin"}
+             "p11", "p11b", "ctl", "Fin"}
 CHUNKS_OF = {"AudioIO_coarseq_nowait.cfg": (2, 1), "AudioIO_coarseq_wait.cfg": (2, 1),
              "AudioIO_coarse_nowait.cfg": (2, 1), "AudioIO_coarse_wait.cfg": (2, 1)}
 
